@@ -306,6 +306,9 @@ var handTemplates = []string{
 	"sub vcl_recv {\n#FASTLY RECV\nif «» ( «» req.http.A «» ) «» { «» } «» else «» if ( req.http.B ) { } else «» { «» } else { }\n}\n",
 	"acl «» a «» { «»\n\"10.0.0.0\" «» / «» 40 «» ; «»\n}\nacl «» a «» { }\n",
 	"table «» t «» STRING «» { «»\n\"k\" «» : «» \"v\" «» , «»\n\"k\" «» : «» \"w\" «»\n}\n",
+	// duplicate case labels made of concatenated strings: a comment between the operands is no part of the label
+	"sub vcl_recv {\n#FASTLY RECV\nswitch (req.http.A) {\ncase «» \"a\" «» \"b\" «» :\nbreak;\ncase \"a\" \"b\":\nbreak;\n}\n}\n",
+	"sub vcl_recv {\n#FASTLY RECV\nswitch (req.http.A) {\ncase \"x\" + \"y\":\nbreak;\ncase \"x\" «» + «» \"y\" «» :\nbreak;\n}\n}\n",
 	"sub f «» STRING «» { «» return «» \"x\" «» ; «» }\nsub f «» STRING { return \"y\" ; }\nsub vcl_recv {\n#FASTLY RECV\nset req.http.A = f «» ( «» ) «» ;\ncall «» nosuch «» ;\ngoto «» lbl «» ;\n}\n",
 }
 
